@@ -20,15 +20,83 @@ func isMembership(prog *load.Program, fn *types.Func, pi int, depth int) bool {
 	if depth > 3 || fn == nil || !prog.IsMoqPkg(fn.Pkg()) {
 		return false
 	}
-	d := prog.Decl(fn.Origin())
-	if d == nil || d.Body == nil {
-		return false
-	}
-	info := prog.Info(fn.Pkg())
 	sig := fn.Type().(*types.Signature)
 	if pi >= sig.Params().Len() {
 		return false
 	}
+	// a method of an interface declared in moq: every implementation in moq's packages
+	if sig.Recv() != nil {
+		if _, isIface := sig.Recv().Type().Underlying().(*types.Interface); isIface {
+			impls := implementations(prog, fn)
+			if len(impls) == 0 {
+				return false
+			}
+			for _, im := range impls {
+				if !isMembership(prog, im, pi, depth+1) {
+					return false
+				}
+			}
+			return true
+		}
+	}
+	d := prog.Decl(fn.Origin())
+	if d == nil || d.Body == nil {
+		return false
+	}
+	return membershipBody(prog, prog.Info(fn.Pkg()), d.Type, d.Body, pi, depth)
+}
+
+// implementations: the methods of moq's named types that a call of the interface method can reach.
+func implementations(prog *load.Program, im *types.Func) []*types.Func {
+	sig, _ := im.Type().(*types.Signature)
+	if sig == nil || sig.Recv() == nil {
+		return nil
+	}
+	iface, ok := sig.Recv().Type().Underlying().(*types.Interface)
+	if !ok {
+		return nil
+	}
+	var out []*types.Func
+	for _, pk := range prog.MoqPackages() {
+		sc := pk.Types.Scope()
+		for _, name := range sc.Names() {
+			tn, ok := sc.Lookup(name).(*types.TypeName)
+			if !ok || tn.IsAlias() {
+				continue
+			}
+			if _, isIface := tn.Type().Underlying().(*types.Interface); isIface {
+				continue
+			}
+			for _, t := range []types.Type{tn.Type(), types.NewPointer(tn.Type())} {
+				if !types.Implements(t, iface) {
+					continue
+				}
+				obj, _, _ := types.LookupFieldOrMethod(t, true, im.Pkg(), im.Name())
+				if f, ok := obj.(*types.Func); ok {
+					dup := false
+					for _, have := range out {
+						if have == f {
+							dup = true
+						}
+					}
+					if !dup {
+						out = append(out, f)
+					}
+				}
+				break
+			}
+		}
+	}
+	return out
+}
+
+// membershipBody: the function body (of a declared function or of a function literal bound to a local)
+// answers whether its pi-th parameter is among finitely many stored strings.
+func membershipBody(prog *load.Program, info *types.Info, ftype *ast.FuncType, fbody *ast.BlockStmt, pi int, depth int) bool {
+	if depth > 3 || info == nil || ftype.Params == nil {
+		return false
+	}
+	d := &ast.FuncDecl{Name: ast.NewIdent("membership"), Type: ftype, Body: fbody}
 	var param types.Object
 	k := 0
 	for _, f := range d.Type.Params.List {
@@ -397,6 +465,16 @@ func numberingLoop(prog *load.Program, info *types.Info, fd *ast.FuncDecl, fs *a
 		}
 		cf, _ := typeutil.Callee(info, call).(*types.Func)
 		if cf == nil {
+			// a function literal bound once to a local (taken := func(name string) bool { ... })
+			if id, ok := ast.Unparen(call.Fun).(*ast.Ident); ok {
+				if lit := boundFuncLit(info, fd, id); lit != nil {
+					for ai, a := range call.Args {
+						if mentionsItoa(a) && membershipBody(prog, info, lit.Type, lit.Body, ai, 1) {
+							return true
+						}
+					}
+				}
+			}
 			return false
 		}
 		for ai, a := range call.Args {
@@ -606,4 +684,41 @@ func searchesWithPredicate(prog *load.Program, fn *types.Func) bool {
 		return true
 	})
 	return hasRange && callsParam
+}
+
+// boundFuncLit: the function literal a local is bound to, if that is its only assignment.
+func boundFuncLit(info *types.Info, fd *ast.FuncDecl, id *ast.Ident) *ast.FuncLit {
+	v := info.ObjectOf(id)
+	if v == nil {
+		return nil
+	}
+	var lit *ast.FuncLit
+	n := 0
+	ast.Inspect(fd, func(x ast.Node) bool {
+		switch s := x.(type) {
+		case *ast.AssignStmt:
+			for i, l := range s.Lhs {
+				if lid, ok := ast.Unparen(l).(*ast.Ident); ok && info.ObjectOf(lid) == v {
+					n++
+					if len(s.Lhs) == len(s.Rhs) {
+						lit, _ = ast.Unparen(s.Rhs[i]).(*ast.FuncLit)
+					}
+				}
+			}
+		case *ast.ValueSpec:
+			for i, nm := range s.Names {
+				if info.Defs[nm] == v {
+					n++
+					if i < len(s.Values) {
+						lit, _ = ast.Unparen(s.Values[i]).(*ast.FuncLit)
+					}
+				}
+			}
+		}
+		return true
+	})
+	if n != 1 {
+		return nil
+	}
+	return lit
 }
